@@ -394,7 +394,7 @@ func (in *interp) finishIterators() {
 	if in.own == "C07" {
 		in.res.nontrivial = in.res.classes["nt_c07"] > 0
 	}
-	if in.own == "C08" {
+	if in.own == "C08" || in.own == "C10" {
 		in.res.nontrivial = in.res.classes["gc_round_released"] > 0 && in.res.classes["next_partial"]+in.res.classes["next_full"] > 0
 	}
 }
